@@ -387,6 +387,7 @@ func GenConfig(t *rapid.T, p CfgParams) Config {
 	k.Compression = rapid.SampledFrom(comps).Draw(t, "compression")
 	if k.Compression == "custom" {
 		k.FreshCompressor = rapid.Bool().Draw(t, "fresh-compressor")
+		k.HeaderCompressor = rapid.Bool().Draw(t, "header-compressor")
 	}
 	k.CallerReuses = rapid.IntRange(0, 2).Draw(t, "caller-reuses") == 0
 	k.CloseTwice = rapid.IntRange(0, 3).Draw(t, "close-twice") == 0
